@@ -405,6 +405,11 @@ def setIndex (s : St) (va vi v : Val) : Res Val :=
   | _, _ => .stuck "index"
 
 
+def assignVar (s : St) (x : String) (v : Val) : Res Val :=
+  match update s.env x v with
+  | some env => .ok .unit { s with env := env }
+  | none => .stuck ("assign unbound " ++ x)
+
 inductive Iter where
   | range (cur stop : Int)
   | arr (a : Nat) (i : Nat)
@@ -602,19 +607,11 @@ def evalS : Nat → Prog → St → Stmt → Res Val
         match matchPat n s1.heap p v with
         | some (some bs) => .ok .unit { s1 with env := bs ++ s1.env }
         | _ => .stuck "let pattern"
-    | .assign x .set e =>
-      (evalE n P s e).bind fun v s1 =>
-        match update s1.env x v with
-        | some env => .ok .unit { s1 with env := env }
-        | none => .stuck ("assign unbound " ++ x)
+    | .assign x .set e => (evalE n P s e).bind fun v s1 => assignVar s1 x v
     | .assign x op e =>
       match lookup s.env x, asgBin op with
       | some old, some bop =>
-        (evalE n P s e).bind fun v s1 =>
-          (binop n bop old v s1).bind fun r s2 =>
-            match update s2.env x r with
-            | some env => .ok .unit { s2 with env := env }
-            | none => .stuck ("assign unbound " ++ x)
+        (evalE n P s e).bind fun v s1 => (binop n bop old v s1).bind fun r s2 => assignVar s2 x r
       | _, _ => .stuck ("assign unbound " ++ x)
     | .assignField o f .set e =>
       (evalE n P s e).bind fun v s1 =>
